@@ -237,6 +237,29 @@ def r09_4(ctx):
             r.ob("marketing:loop", False, f.site, "%d loops over the sorted parameters" % len(loops))
             return
         lp = loops[0]
+        # the two accumulators by role: the one returned in `skipped_query_params`, and the other one
+        skipped_l = set()
+        for p in s.paths():
+            if p.end[0] == "ret" and p.end[1][0] == "agg":
+                sk = dict(p.end[1][3]).get("skipped_query_params")
+                if sk is not None:
+                    for x in walk(sk):
+                        if x[0] in ("local", "havoc"):
+                            skipped_l.add(x[1])
+        pushed_l = set()
+        fresh = set()  # strings created anew for each parameter are not accumulators
+        for p in lp.iteration_paths(s):
+            for e in p.events:
+                if e[0] == "call" and e[1] == "std::string::String::push_str" and e[2][0][0] == "local":
+                    pushed_l.add(e[2][0][1])
+                if e[0] == "init":
+                    fresh.add(e[1])
+        pushed_l -= fresh
+        skipped_l &= pushed_l
+        query_l = pushed_l - skipped_l
+        if len(skipped_l) != 1 or len(query_l) != 1:
+            r.ob("marketing:accumulators", False, f.site, "cannot identify the kept / set-aside accumulators (%s / %s)" % (sorted(query_l), sorted(skipped_l)))
+            return
         rows = {}
         for p in lp.iteration_paths(s):
             ign = mk = None
@@ -246,8 +269,8 @@ def r09_4(ctx):
                 if a[0] == "call" and a[1].rsplit("::", 1)[1] == "contains" and mentions_field(a[2][0], "marketing_query_params", CFG):
                     mk = bool(v)
                     key_arg = a[2][1]
-            to_skipped = any(e[0] == "call" and e[1] == "std::string::String::push_str" and e[2][0][0] == "local" and f.local_name(e[2][0][1]) == "skipped_query_params" for e in p.events)
-            to_query = any(e[0] == "call" and e[1] == "std::string::String::push_str" and e[2][0][0] == "local" and f.local_name(e[2][0][1]) == "query_string" for e in p.events)
+            to_skipped = any(e[0] == "call" and e[1] == "std::string::String::push_str" and e[2][0][0] == "local" and e[2][0][1] in skipped_l for e in p.events)
+            to_query = any(e[0] == "call" and e[1] == "std::string::String::push_str" and e[2][0][0] == "local" and e[2][0][1] in query_l for e in p.events)
             rows.setdefault((ign, mk), set()).add((to_skipped, to_query))
         bad = []
         for (ign, mk), effs in rows.items():
@@ -278,7 +301,7 @@ def r09_4(ctx):
             if any(a[0] == "disc" and a[1][0] == "call" and a[1][1] == "str::parse" and v == "Err" for a, v in p.conds):
                 continue
             n += 1
-            empties = [v for a, v in p.conds if a[0] == "call" and a[1] == "std::string::String::is_empty" and a[2][0][0] == "local" and f.local_name(a[2][0][1]) == "skipped_query_params"]
+            empties = [v for a, v in p.conds if a[0] == "call" and a[1] == "std::string::String::is_empty" and a[2][0][0] == "local" and a[2][0][1] in skipped_l]
             is_some = sk is not None and sk[0] == "agg" and sk[2] == "Some"
             want = (pf == 1) and bool(empties) and empties[-1] == 0
             if is_some != want:
